@@ -11,9 +11,10 @@
    cannot produce under that schedule is reported as a mismatch. For small
    scenarios the check additionally explores EVERY schedule of the machine
    ([all_outcomes], with fuel) and requires the observation to be among the
-   outcomes found. A function that panics or calls runtime.Goexit is the
+   outcomes found. The observation is also replayed on the transcription of
+   sync.Once itself (Sync/OnceImpl.v). A function that panics or calls runtime.Goexit is the
    model's aborting function: its caller produces no result. Definitions only. *)
-From Typ Require Export Lib.Base Sync.Once.
+From Typ Require Export Lib.Base Sync.Once Sync.OnceImpl.
 
 Record case := Case {
   c_arity : Z;                              (* 1, 2 or 3 *)
@@ -98,12 +99,29 @@ Definition run_case (c : case) : outcome * bool :=
   let fin := run 0%Z arity (init 0%Z arity progs) (witness_schedule arity progs w) in
   (outcome_of fin, all_finished fin).
 
+(* The same observation replayed on the TRANSCRIPTION of sync.Once over mutex + atomic flag
+   (Sync/OnceImpl.v), under the corresponding schedule; observables read through [abs]. *)
+Definition cbudget (arity : nat) (p : list (ufun Z)) : nat :=
+  fold_left (fun acc f => acc + f_steps f + 2 * arity + 10) p 0.
+
+Definition cwitness_schedule (arity : nat) (progs : list (list (ufun Z))) (w : nat) : list tid :=
+  repeat w (cbudget arity (nth w progs [])) ++
+  flat_map (fun t => repeat t (cbudget arity (nth t progs []))) (seq 0 (length progs)).
+
+Definition run_case_impl (c : case) : outcome * bool :=
+  let arity := Z.to_nat (c_arity c) in
+  let progs := map (map zfun) (c_progs c) in
+  let w := match c_ran c with (t, _) :: _ => Z.to_nat t | [] => 0 end in
+  let fin := abs (crun 0%Z arity (cinit 0%Z arity progs) (cwitness_schedule arity progs w)) in
+  (outcome_of fin, all_finished fin).
+
 Definition check_case (c : case) : bool :=
   let arity := Z.to_nat (c_arity c) in
   let progs := map (map zfun) (c_progs c) in
   let obs : outcome := (c_ran c, c_rets c, c_early c) in
   let '(o, fin) := run_case c in
-  fin && outcome_eqb o obs &&
+  let '(o2, fin2) := run_case_impl c in
+  fin && outcome_eqb o obs && fin2 && outcome_eqb o2 obs &&
   (if small arity progs then
      match explore arity 64 (init 0%Z arity progs) with
      | Some outs => existsb (outcome_eqb obs) outs
